@@ -129,7 +129,7 @@ def rule_replay(name):
         return {"case": ["cli", "gen", 1, None, False], "what": bad[0]} if bad else None
     if name.startswith("get_functions_and_classes/") or name.startswith("get_emit_kwarg/"):
         # up to 8 entries: the last three have a private, a lower-case and a one-letter name
-        for case in (("class", "{name}Gen", 2, None, False), ("json_schema", "{name}", 12, None, False), ("class", "Cfg{name}", 12, None, False), ("class", "{name}", 12, None, False), ("argparse", "{name}Gen", 2, None, False)):
+        for case in (("class", "{name}Gen", 2, None, False), ("class", "{name}Gen", 2, None, False, True), ("json_schema", "{name}", 12, None, False), ("class", "Cfg{name}", 12, None, False), ("class", "{name}", 12, None, False), ("argparse", "{name}Gen", 2, None, False)):
             bad = [w for k, w in gen_case(case) if k != "raises"]
             if bad:
                 return {"case": list(case), "what": bad[0]}
@@ -156,7 +156,8 @@ def class_src(i):
 def gen_case(case):
     from cdd.compound.gen import gen
 
-    emit, tpl, nsym, prepend, imports_ff = case
+    emit, tpl, nsym, prepend, imports_ff = case[:5]
+    infer_imports = bool(case[5]) if len(case) > 5 else False  # --emit-and-infer-imports
     d = tempfile.mkdtemp(prefix="cddvc_c19_")
     try:
         srcs = [class_src(i) for i in range(nsym)]
@@ -170,7 +171,7 @@ def gen_case(case):
         try:
             with contextlib.redirect_stdout(io.StringIO()), contextlib.redirect_stderr(io.StringIO()):
                 gen(name_tpl=tpl, input_mapping=inp, parse_name="class", emit_name=emit, output_filename=out, prepend=prepend, imports_from_file=imp,
-                    emit_call=False, emit_default_doc=True, emit_and_infer_imports=False, no_word_wrap=None, decorator_list=None)
+                    emit_call=False, emit_default_doc=True, emit_and_infer_imports=infer_imports, no_word_wrap=None, decorator_list=None)
         except Exception as ex:
             if os.path.exists(out):
                 return [("raises-after-writing", "gen raised %s: %s but left %d bytes in the output file" % (type(ex).__name__, str(ex)[:80], os.path.getsize(out)))]
@@ -257,6 +258,8 @@ def bounded(tier):
     emits = ["class", "argparse", "json_schema", "sqlalchemy", "sqlalchemy_table"]
     cases = list(itertools.product(emits, ("{name}Gen", "Cfg{name}"), (1, 2, 4) if tier == "quick" else (1, 2, 3, 4, 5, 8), (None, "import os\n", '"""Module doc"""\n', "print('generated')\n"), (False, True, "future")))
     cases = [c for c in cases if not (c[3] and not c[4])]  # --prepend only matters together with --imports-from-file
+    # import inference on (the generated classes need typing.Optional only: more than one inferred import line crashes on the pinned tree)
+    cases += [("class", "{name}Gen", n_, None, False, True) for n_ in (1, 2, 4)]
     # the identity template over every kind of name (private, lower-case, one letter, names of builtins)
     cases += [(e_, "{name}", 12, None, False) for e_ in (emits if tier == "thorough" else ["class", "json_schema"])]
     res = common.pmap(gen_case, cases)
@@ -312,7 +315,7 @@ def main(tier, write_baseline=False):
         n, raised, fails = bounded(tier)
         run.bounded.append({
             "name": "gen over an option matrix + the CLI guard on an existing file (bounded, NOT counted as proved)",
-            "bound": "parse kind class x emit {class, argparse, json_schema, sqlalchemy, sqlalchemy_table} x 2 name templates x 1..%d symbols (+ the identity template over 12 names incl. private / lower-case / builtin names) x prepend {none, import, docstring, expression statement} x imports-from-file {off, typing import, __future__ import}, import inference off; 3 CLI runs onto an existing file (plain, ./-spelled and ~-spelled path). %d runs raised (out of domain: function/pydantic emit and import inference crash on the pinned tree)" % (4 if tier == "quick" else 5, raised),
+            "bound": "parse kind class x emit {class, argparse, json_schema, sqlalchemy, sqlalchemy_table} x 2 name templates x 1..%d symbols (+ the identity template over 12 names incl. private / lower-case / builtin names) x prepend {none, import, docstring, expression statement} x imports-from-file {off, typing import, __future__ import}, import inference off (+ 3 runs with --emit-and-infer-imports on inputs that need typing.Optional only); 3 CLI runs onto an existing file (plain, ./-spelled and ~-spelled path). %d runs raised (out of domain: function/pydantic emit and import inference crash on the pinned tree)" % (4 if tier == "quick" else 5, raised),
             "rule": "one gen call per option combination; non-trivial = gen returns",
             "evaluations": n, "distinct_nontrivial": n - raised,
             "failures": [{"kind": k[0], "emit": k[1], "what": v[1][:300]} for k, v in list(fails.items())[:5]],
